@@ -42,7 +42,7 @@ def _run(kind, meth, release, hang_first=True, max_attempts=3, timeout=0.05):
 
 
 def hung_attempt_runs(ctx, prop, rounds=1):
-    """prop: 'C03' or 'C11' (selects which statement a mismatch is reported under)."""
+    """prop: 'C03', 'C04' or 'C11' (selects which statement a mismatch is reported under)."""
     release = threading.Event()
     try:
         for _ in range(rounds):
@@ -57,6 +57,10 @@ def hung_attempt_runs(ctx, prop, rounds=1):
                     if prop == "C03" and len(retries) >= len(inv) and len(retries) > 0 and reported_attempts > len(inv):
                         ctx.viol("retry-granted-but-operation-not-invoked", f"[{kind}.{meth}] attempt 1 hung past attempt_timeout_s; the library reported {len(retries)} retries / attempt numbers up to {reported_attempts} "
                                  f"but the operation was invoked {len(inv)} time(s): {events}", {"hang": desc})
+                    if prop == "C04" and meth == "call" and final != ("return", "ok"):
+                        # attempt 1 hangs (abandoned at the timeout), attempt 2 answers "ok": that value is what call() returns
+                        ctx.viol("hung-attempt:first-success-not-returned", f"[{kind}.call] attempt 1 hung past attempt_timeout_s and attempt 2 would return 'ok'; call() delivered {final[0]} {final[1]!r} "
+                                 f"after {len(inv)} invocation(s); events {events}", {"hang": desc})
                     if prop == "C11" and meth == "execute" and final[0] == "return" and final[1].attempts != len(inv):
                         ctx.viol("outcome-wrong-attempts", f"[{kind}.execute] attempt 1 hung past attempt_timeout_s; outcome.attempts={final[1].attempts} but the operation was invoked {len(inv)} time(s)", {"hang": desc})
             # several operations left hanging by earlier, separate runs; then a healthy run
@@ -402,3 +406,15 @@ def interrupt_while_waiting_for_a_timed_attempt(ctx, rounds=3):
                 ctx.viol("cancellation-not-propagated", f"[retry.{meth}] KeyboardInterrupt arrived while the runner waited for a timed attempt; the run ended with {final}", {"hang": desc})
     finally:
         signal.signal(signal.SIGINT, old)
+
+
+def replay_hung_attempt_runs(prop):
+    """--replay for a violation found by hung_attempt_runs: the runs are deterministic in their verdicts (counts), so run them again."""
+    from .common import Collector
+
+    c = Collector(prop)
+    hung_attempt_runs(c, prop)
+    for k, m in c.found:
+        print(f"  !! [{k}] {m}")
+    print("replay:", "violation reproduced" if c.found else "no violation on this tree")
+    return 1 if c.found else 0
